@@ -167,8 +167,17 @@ func (g *c14gen) spell(s string) string {
 func (g *c14gen) actionCallSite(y *ybuf, spec string, inputs map[string]bool, outputs []string, skipIn, skipOut bool) []string {
 	t := g.t
 	var exp []string
-	usesLine := y.ln("      - uses: %s", spec)
-	y.ln("        id: s1")
+	// the keys of the step (uses, id, with) are written in a random order
+	usesLine := 0
+	var atUses []string
+	first := true
+	pfx := func() string {
+		if first {
+			first = false
+			return "      - "
+		}
+		return "        "
+	}
 	var names []string
 	for n := range inputs {
 		names = append(names, n)
@@ -184,7 +193,7 @@ func (g *c14gen) actionCallSite(y *ybuf, spec string, inputs map[string]bool, ou
 		if rapid.IntRange(0, 9).Draw(t, "give") < p {
 			given = append(given, n)
 		} else if required && !skipIn {
-			exp = append(exp, fmt.Sprintf("%d|missing-required-input|%s", usesLine, strings.ToLower(n)))
+			atUses = append(atUses, "missing-required-input|"+strings.ToLower(n))
 		}
 	}
 	nund := rapid.IntRange(0, 2).Draw(t, "nund")
@@ -196,16 +205,32 @@ func (g *c14gen) actionCallSite(y *ybuf, spec string, inputs map[string]bool, ou
 	for i := 0; i < nund; i++ {
 		with = append(with, kv{fmt.Sprintf("zz-undeclared-%d", i), "v"})
 	}
-	if len(with) > 0 {
-		y.ln("        with:")
-		// random order
-		perm := rapid.Permutation(with).Draw(t, "order")
-		for _, e := range perm {
-			ln := y.ln("          %s: %s", e.k, e.v)
-			if strings.HasPrefix(e.k, "zz-undeclared-") && !skipIn {
-				exp = append(exp, fmt.Sprintf("%d|undefined-input|%s", ln, e.k))
+	blocks := []func(){
+		func() { usesLine = y.ln("%suses: %s", pfx(), spec) },
+		func() { y.ln("%sid: s1", pfx()) },
+		func() {
+			if len(with) > 0 {
+				y.ln("%swith:", pfx())
+				// random order
+				perm := rapid.Permutation(with).Draw(t, "order")
+				for _, e := range perm {
+					ln := y.ln("          %s: %s", e.k, e.v)
+					if strings.HasPrefix(e.k, "zz-undeclared-") && !skipIn {
+						exp = append(exp, fmt.Sprintf("%d|undefined-input|%s", ln, e.k))
+					}
+				}
 			}
-		}
+		},
+	}
+	order := []int{0, 1, 2}
+	if rapid.Bool().Draw(t, "shufflestepkeys") {
+		order = rapid.Permutation(order).Draw(t, "stepkeyorder")
+	}
+	for _, b := range order {
+		blocks[b]()
+	}
+	for _, a := range atUses {
+		exp = append(exp, fmt.Sprintf("%d|%s", usesLine, a))
 	}
 	// output references
 	nref := rapid.IntRange(1, 3).Draw(t, "nref")
